@@ -47,23 +47,25 @@ theorem undelegate_okResets (e : Env) (s : State) (g : Dec) (del : Addr) (val : 
       · simp [okResets, throw, throwThe, MonadExceptOf.throw]
       · split
         · simp [okResets, throw, throwThe, MonadExceptOf.throw]
-        · rename_i s2 g2 hr
-          -- the hook ran (removal or modification): its result carries the reset variable
-          have hg : g2 = 0 := by
-            split at hr
-            · simp only [bind, Except.bind] at hr
+        · split
+          · simp [okResets, throw, throwThe, MonadExceptOf.throw]
+          · rename_i s2 g2 hr
+            -- the hook ran (removal or modification): its result carries the reset variable
+            have hg : g2 = 0 := by
               split at hr
-              · cases hr
-              · rename_i x hx
-                obtain ⟨sx, gx⟩ := x
-                simp only [pure, Except.pure, Except.ok.injEq, Prod.mk.injEq] at hr
-                have := verifySuper_resets _ _ _ _ _ _ _ _ hx
-                rw [← hr.2]; exact this
-            · exact verifySuper_resets _ _ _ _ _ _ _ _ hr
-          subst hg
-          split
-          · split <;> simp [okResets, throw, throwThe, MonadExceptOf.throw, pure, Except.pure]
-          · simp [okResets, pure, Except.pure]
+              · simp only [bind, Except.bind] at hr
+                split at hr
+                · cases hr
+                · rename_i x hx
+                  obtain ⟨sx, gx⟩ := x
+                  simp only [pure, Except.pure, Except.ok.injEq, Prod.mk.injEq] at hr
+                  have := verifySuper_resets _ _ _ _ _ _ _ _ hx
+                  rw [← hr.2]; exact this
+              · exact verifySuper_resets _ _ _ _ _ _ _ _ hr
+            subst hg
+            split
+            · split <;> simp [okResets, throw, throwThe, MonadExceptOf.throw, pure, Except.pure]
+            · simp [okResets, pure, Except.pure]
 
 theorem C20_delegate_ok_resets (e : Env) (s s' : State) (g : Dec) (del : Addr) (val : ValAddr) (amt : Int)
     (h : (stakeDelegate e s g del val amt).2 = .ok s') : (stakeDelegate e s g del val amt).1 = 0 := by
